@@ -1,0 +1,21 @@
+//go:build !verif
+
+// Package verifhook provides scheduling hooks for the model-checking harness.
+// In normal builds (without the "verif" build tag) every hook is an empty,
+// inlinable function.
+package verifhook
+
+// Point marks a place where the harness scheduler may switch threads.
+func Point(label string) {}
+
+// Spawn is called by the creator of a goroutine, before the go statement.
+func Spawn(name string) any { return nil }
+
+// Enter is called first thing inside the new goroutine with Spawn's result.
+func Enter(tok any) {}
+
+// Exit is called (deferred) when the goroutine ends.
+func Exit(tok any) {}
+
+// Await stands before an operation that may block until pred holds.
+func Await(pred func() bool, why string) {}
